@@ -11,7 +11,7 @@ from vt.core import dev
 from vt.util import close, plain
 
 PENDING = []
-COUNTS = {'mode_twin_tables': 0, 'mode_twin_cells': 0}
+COUNTS = {'mode_twin_tables': 0, 'mode_twin_cells': 0, 'partial_table_reads': 0}
 
 
 def _table(obj, name, **kw):
@@ -71,6 +71,25 @@ def check(obj, tables=('data_components', 'data_composite'), tag=''):
                 if not _same(before[k][c], after.get(k, {}).get(c))]
         if diff:
             PENDING.append(dev(tag + 'reading-in-default-mode-changes-the-object(%s)' % name, dict(differing=diff[:6], obj=type(obj).__name__)))
+        # a PART of the table (components=[...]) holds exactly the selected component rows, and reading a part does not
+        # change what the whole table says afterwards
+        comps = [k for k in before if k not in ('avg', 'sum')]
+        if name in ('data_composite', 'data_matter') and len(comps) >= 2:
+            subset = comps[1::2] if COUNTS['mode_twin_tables'] % 2 else comps[:1]
+            try:
+                part = _table(obj, name, quantity=False, components=list(subset))
+                whole = _table(obj, name, quantity=False)
+            except Exception as e:
+                PENDING.append(dev(tag + 'partial-table-raises(%s)' % name, dict(exc='%s: %s' % (type(e).__name__, str(e)[:200]), components=subset)))
+                continue
+            COUNTS['partial_table_reads'] = COUNTS.get('partial_table_reads', 0) + 1
+            prow = [k for k in (part or {}) if k not in ('avg', 'sum')]
+            if prow != list(subset) or any(not _same(part[k][c], before[k][c]) for k in prow for c in before[k] if c in part[k]):
+                PENDING.append(dev(tag + 'partial-table-is-not-the-selected-rows(%s)' % name, dict(selected=subset, rows=prow)))
+            wd = [(k, c) for k in before for c in before[k] if whole is None or not _same(before[k][c], whole.get(k, {}).get(c))]
+            if whole is None or list(whole) != list(before) or wd:
+                PENDING.append(dev(tag + 'whole-table-differs-after-a-partial-read(%s)' % name,
+                                   dict(selected=subset, rows_before=list(before), rows_after=None if whole is None else list(whole), differing=wd[:6])))
 
 
 def _same(a, b):
